@@ -352,6 +352,13 @@ class Engine:
             return z3.And(*conj)
         if isinstance(a, SConst) and isinstance(b, SConst):
             return z3.BoolVal(a.py == b.py)
+        if isinstance(a, SSeqStr) and isinstance(b, SConst) and isinstance(b.py, str):
+            lit_ = z3.Empty(z3.SeqSort(z3.IntSort()))
+            for ch in b.py:
+                lit_ = z3.Concat(lit_, z3.Unit(z3.IntVal(ord(ch))))
+            return a.seq == lit_
+        if isinstance(a, SSeqStr) and isinstance(b, SSeqStr):
+            return a.seq == b.seq
         if isinstance(a, SLower) and isinstance(b, SConst) and isinstance(b.py, str):
             if b.py != b.py.lower():
                 return z3.BoolVal(False)
@@ -442,6 +449,14 @@ class Engine:
                 return z3.IntVal(0)
         if lst.elem == "int" and isinstance(v, SInt):
             return v.t
+        if lst.elem.startswith("dict:") and isinstance(v, SDict):
+            return v.id
+        if lst.elem == "seqstr" and isinstance(v, SSeqStr):
+            t = SEQID(v.seq)
+            path.assume(SEQ_OF(t) == v.seq)
+            return t
+        if lst.elem == "char" and isinstance(v, SChar):
+            return v.code
         if lst.elem == "str":
             return sid(path, self.to_str(path, v))
         if lst.elem.startswith("slice") and isinstance(v, SSlice):
@@ -457,6 +472,13 @@ class Engine:
             return SRef(t, self.c.list_class_hint(lst))
         if lst.elem == "int":
             return SInt(t)
+        if lst.elem.startswith("dict:"):
+            _, k2, v2 = lst.elem.split(":", 2)
+            return SDict(t, k2, v2)
+        if lst.elem == "seqstr":
+            return SSeqStr(SEQ_OF(t))
+        if lst.elem == "char":
+            return SChar(t)
         if lst.elem == "str":
             path.assume(SID(STR_OF(t)) == t)      # every element of a list of strings is the id of some string
             return SStr(STR_OF(t))
@@ -962,7 +984,7 @@ class Engine:
             base = path.heap.f0[name]
             path.assume(z3.And(z3.Select(base, o) < path.heap.alloc0, z3.Select(base, o) > 0))
         if k == "list":
-            return SList(t, parts[1] if len(parts) > 1 else "ref")
+            return SList(t, ":".join(parts[1:]) if len(parts) > 1 else "ref")
         if k == "dict":
             return SDict(t, parts[1] if len(parts) > 1 else "str", ":".join(parts[2:]) if len(parts) > 2 else "ref")
         if k == "opaque":
@@ -985,7 +1007,7 @@ class Engine:
             if isinstance(v, SRef):
                 return v.t
         if k == "list" and isinstance(v, SList):
-            want = kind.split(":")[1] if ":" in kind else "ref"
+            want = kind.split(":", 1)[1] if ":" in kind else "ref"
             if v.elem != want and elem_sort(v.elem) == elem_sort(want if not want.startswith("slice") else "slice"):
                 # e.g. `self.x = []`: the literal's element kind is only known from the field it is stored in
                 nv = SList(v.id, want, v.base)
@@ -993,7 +1015,7 @@ class Engine:
                 return nv.id
             return v.id
         if k == "list" and isinstance(v, SConst) and isinstance(v.py, tuple):
-            return self.new_list(path, [SConst(x) for x in v.py], elem=kind.split(":")[1] if ":" in kind else "str").id
+            return self.new_list(path, [SConst(x) for x in v.py], elem=kind.split(":", 1)[1] if ":" in kind else "str").id
         if k == "dict" and isinstance(v, SDict):
             return v.id
         if k == "opaque":
@@ -1067,6 +1089,12 @@ class Engine:
         if isinstance(v, (SStr, SConst)):
             return SStr(self.to_str(path, v))
         raise EngineError("str() of " + type(v).__name__)
+
+    def bi_StringIO(self, path, e):
+        """io.StringIO() used as a character accumulator: modelled as a list of code points"""
+        if e.args:
+            raise EngineError("StringIO(initial)")
+        return self.new_list(path, [], e, elem="char")
 
     def bi_print(self, path, e):
         return SNone()
@@ -1160,6 +1188,20 @@ class Engine:
             path.heap.list_set(lst, z3.Concat(path.heap.list_get(lst), path.heap.list_get(v)))
             return SNone()
         raise EngineError("extend with non-list")
+
+    def m_SList_write(self, path, lst, e):
+        if lst.elem != "char":
+            raise EngineError("write on a non-buffer")
+        v = self.ev(path, e.args[0])
+        if not isinstance(v, SChar):
+            raise EngineError("StringIO.write of a non-character")
+        path.heap.list_set(lst, z3.Concat(path.heap.list_get(lst), z3.Unit(v.code)))
+        return SNone()
+
+    def m_SList_getvalue(self, path, lst, e):
+        if lst.elem != "char":
+            raise EngineError("getvalue on a non-buffer")
+        return SSeqStr(path.heap.list_get(lst))
 
     def m_SList_copy(self, path, lst, e):
         n = SList(path.heap.new_id(), lst.elem, lst.base)
